@@ -861,7 +861,7 @@ fn q_strategy() -> BoxedStrategy<Q> {
 }
 
 fn stmt_strategy() -> BoxedStrategy<Stmt> {
-    let flags = || (prop::bool::weighted(0.35), prop::bool::weighted(0.25));
+    let flags = || (prop::bool::weighted(0.35), prop::bool::weighted(0.2));
     let values = (name_sel(0.3), flags(), prop::bool::weighted(0.5), prop::collection::vec(0u8..8, 1..4), prop::collection::vec(prop::collection::vec(prop::option::weighted(0.85, -4i8..6), 3), 1..4))
         .prop_map(|(name, (or_replace, if_not_exists), declared, tys, rows)| Stmt::CreateTableValues { name, or_replace, if_not_exists, declared, tys, rows });
     let cols = (name_sel(0.3), flags(), prop::collection::vec(0u8..8, 1..4)).prop_map(|(name, (or_replace, if_not_exists), tys)| Stmt::CreateTableCols { name, or_replace, if_not_exists, tys });
@@ -876,29 +876,43 @@ fn stmt_strategy() -> BoxedStrategy<Stmt> {
     let info = (0u8..5, prop::bool::weighted(0.2)).prop_map(|(what, via_c1)| Stmt::Info { what, via_c1 });
     let showc = name_sel(0.8).prop_map(|name| Stmt::ShowColumns { name });
     prop_oneof![
-        7 => values,
+        6 => values,
         3 => cols,
         4 => ctas,
-        7 => view,
+        8 => view,
         6 => drop,
         2 => cschema,
         1 => cdb,
         1 => dschema,
         5 => insert,
-        8 => select,
+        10 => select,
         6 => info,
         2 => showc,
     ]
     .boxed()
 }
 
-fn case_strategy(tier: Tier) -> BoxedStrategy<Case> {
-    let max_random = tier.pick(10usize, 10usize);
-    (prop::bool::weighted(0.6), prop::bool::weighted(0.4), prop::bool::weighted(0.85), prop::collection::vec(stmt_strategy(), 1..=max_random))
-        .prop_map(|(pre_s1, pre_c1, pre_c1s1, rest)| {
+fn seed_create_strategy() -> BoxedStrategy<Stmt> {
+    // a plain CREATE TABLE on a default-schema name (so that later statements have something to refer to)
+    let name = prop::sample::select(vec![0u8, 1, 2, 3, 6, 7, 9, 4, 5]).prop_map(|pick| NameSel { existing: false, pick, spell: 0 });
+    (name, prop::bool::weighted(0.5), prop::collection::vec(0u8..8, 1..4), prop::collection::vec(prop::collection::vec(prop::option::weighted(0.85, -4i8..6), 3), 1..4))
+        .prop_map(|(name, declared, tys, rows)| Stmt::CreateTableValues { name, or_replace: false, if_not_exists: false, declared, tys, rows })
+        .boxed()
+}
+
+fn case_strategy(_tier: Tier) -> BoxedStrategy<Case> {
+    (
+        (prop::bool::weighted(0.6), prop::bool::weighted(0.4), prop::bool::weighted(0.85), prop::bool::weighted(0.15)),
+        prop::collection::vec(seed_create_strategy(), 0..=2),
+        prop::collection::vec(stmt_strategy(), 1..=10),
+    )
+        .prop_map(|((pre_s1, pre_c1, pre_c1s1, pre_qs1), seeds, rest)| {
             let mut stmts = vec![];
             if pre_s1 {
                 stmts.push(Stmt::CreateSchema { schema: 0, if_not_exists: false });
+            }
+            if pre_qs1 {
+                stmts.push(Stmt::CreateSchema { schema: 2, if_not_exists: false });
             }
             if pre_c1 {
                 stmts.push(Stmt::CreateDatabase { db: 0, if_not_exists: false });
@@ -906,6 +920,7 @@ fn case_strategy(tier: Tier) -> BoxedStrategy<Case> {
                     stmts.push(Stmt::CreateSchema { schema: 3, if_not_exists: false });
                 }
             }
+            stmts.extend(seeds);
             stmts.extend(rest);
             stmts.truncate(MAX_STMTS);
             Case { stmts }
